@@ -17,6 +17,13 @@
 //!                 `capacity` items; nothing else is lost once the receiver has drained and returned)
 //!   mt-capacity   no batch is larger than the capacity; the sampled queue_length never exceeds it
 //!   mt-join       the receiver thread terminates after the sender is dropped
+//!
+//! case: (rxdrop HOLDER)   the receiver is DROPPED (its `exec` future cancelled / never run) while another thread is
+//!   inside the shared state's critical section: HOLDER = push — a sender inside `Channel::push`; HOLDER = len — a
+//!   metrics sample inside `Channel::len`. The holder stays there for 150 ms. Once the drop has returned, the channel is
+//!   closed: the output is what `try_send` then answers — the model's `dropReceiver` then `trySend` says `closed`
+//!   (theorem C06.closed_after_receiver_drop) — an item accepted after the receiver is gone would never be processed,
+//!   counted or reported.
 
 use emit_batcher::{BatchError, ChannelMetrics, Receiver, Sender};
 use hcommon::{Rng, Sexp, Stream, Tier};
@@ -51,7 +58,95 @@ fn metric(m: &ChannelMetrics<Vec<u64>>, name: &str) -> usize {
     s.1.get()
 }
 
+/// a channel whose `push` / `len` can be made to linger while the caller holds the shared state's lock
+struct Gated(Vec<u64>);
+static GATE_PUSH: std::sync::atomic::AtomicBool = std::sync::atomic::AtomicBool::new(false);
+static GATE_LEN: std::sync::atomic::AtomicBool = std::sync::atomic::AtomicBool::new(false);
+static GATE_INSIDE: std::sync::atomic::AtomicBool = std::sync::atomic::AtomicBool::new(false);
+fn linger(gate: &std::sync::atomic::AtomicBool) {
+    use std::sync::atomic::Ordering::SeqCst;
+    if gate.swap(false, SeqCst) {
+        GATE_INSIDE.store(true, SeqCst);
+        std::thread::sleep(std::time::Duration::from_millis(150));
+    }
+}
+impl emit_batcher::Channel for Gated {
+    type Item = u64;
+    fn new() -> Self {
+        Gated(Vec::new())
+    }
+    fn push(&mut self, item: u64) {
+        linger(&GATE_PUSH);
+        self.0.push(item);
+    }
+    fn len(&self) -> usize {
+        linger(&GATE_LEN);
+        self.0.len()
+    }
+    fn clear(&mut self) {
+        self.0.clear()
+    }
+}
+
+fn run_rxdrop(holder: &str) -> String {
+    use std::sync::atomic::Ordering::SeqCst;
+    let (sender, receiver): (Sender<Gated>, Receiver<Gated>) = emit_batcher::bounded(8);
+    let metrics = sender.metric_source();
+    GATE_INSIDE.store(false, SeqCst);
+    let out = std::thread::scope(|sc| {
+        let h = match holder {
+            "push" => {
+                GATE_PUSH.store(true, SeqCst);
+                sc.spawn(|| sender.send(1))
+            }
+            _ => {
+                GATE_LEN.store(true, SeqCst);
+                sc.spawn(|| {
+                    use emit::metric::Source;
+                    metrics.sample_metrics(&emit::metric::sampler::from_fn(|_| {}));
+                })
+            }
+        };
+        let t0 = std::time::Instant::now();
+        while !GATE_INSIDE.load(SeqCst) && t0.elapsed() < std::time::Duration::from_secs(5) {
+            std::thread::yield_now();
+        }
+        let inside = GATE_INSIDE.load(SeqCst);
+        // the holder is inside the critical section now: tear the receiver down
+        drop(receiver);
+        let _ = h.join();
+        GATE_PUSH.store(false, SeqCst);
+        GATE_LEN.store(false, SeqCst);
+        let r = match sender.try_send(2) {
+            Ok(()) => "ok",
+            Err(e) => {
+                if e.into_retryable().is_some() {
+                    "full"
+                } else {
+                    "closed"
+                }
+            }
+        };
+        format!("try={}{}", r, if inside { "" } else { " (holder never got inside)" })
+    });
+    if out == "try=closed" {
+        out
+    } else {
+        format!("{}\tFAIL:mt-open-after-receiver-drop", out)
+    }
+}
+
 fn run_mt(line: &str) -> String {
+    if let Some(h) = Sexp::parse(line).and_then(|s| {
+        let (tag, a) = s.as_tagged()?;
+        if tag == "rxdrop" && a.len() == 1 {
+            a[0].as_atom().filter(|h| *h == "push" || *h == "len").map(|h| h.to_string())
+        } else {
+            None
+        }
+    }) {
+        return run_rxdrop(&h);
+    }
     let parsed = (|| {
         let s = Sexp::parse(line)?;
         let (tag, a) = s.as_tagged()?;
@@ -237,6 +332,12 @@ fn run_mt(line: &str) -> String {
 }
 
 fn gen_mt(rng: &mut Rng, tier: Tier, n: usize) -> Vec<String> {
+    let mut out = vec!["(rxdrop push)".to_string(), "(rxdrop len)".to_string()];
+    out.extend(gen_mt_soak(rng, tier, n.saturating_sub(2)));
+    out
+}
+
+fn gen_mt_soak(rng: &mut Rng, tier: Tier, n: usize) -> Vec<String> {
     if tier == Tier::Quick {
         // a handful, so that the stream is exercised when run by hand in the quick tier
         return (0..n.min(8))
